@@ -19,9 +19,17 @@ def stress(ctx, cycles, procs):
 
 
 def run(ctx):
-    common.go_build(['corrjob', 'c14stress', 'c14cli'])
+    common.go_build(['corrjob', 'c14stress', 'c14cli', 'c14slow', 'xtool'])
     common.lake_build(['Smtb.Properties.C14', 'driver'])
     common.audit(ctx, 'Smtb/Properties/C14.lean', THEOREMS)
+    facts_err = None
+    try:
+        common.regen_facts()
+        common.lake_build(['Smtb.Properties.C14Facts'])
+        common.audit(ctx, 'Smtb/Properties/C14Facts.lean', ['Smtb.Properties.C14Facts.shutdown_waits_for_requests'])
+    except TieBroken as t:
+        facts_err = t
+        ctx.oblige('T-facts: spawnServerJob shuts down with server.Shutdown(context.Background()) and nothing force-closes a server', False, t.detail[:300])
     ctx.assumptions += [
         "net/http behaviour assumed by the model (list in Smtb/Model/Job.lean): Shutdown closes listeners and returns only when no request is active; ListenAndServe returns once it notices the shutdown",
         "the model is hand-written; ties: event logs of the real server.SpawnJob/CombineJobs driven with instrumented closures must be runs of the LTS; real servers under the early-stop stress; real binary under SIGINT",
@@ -68,6 +76,21 @@ def run(ctx):
         i, line, code, model = mism[0]
         replay = common.write_replay(ctx, 'sigint', {'kind': 'sigint', 'scenario': line, 'observed': code, 'seed': ctx.seed})
         raise Violation(f'SIGINT scenario "{line}": {code[:400]}', replay)
+    # (d) a request held in flight across the stop (slow client); searched much longer when the
+    # shutdown call changed
+    hold = 45 if facts_err else ctx.pick(2, 35)
+    n, mism, _ = common.corr(ctx, 'slow-client', 'c14slow', ['-hold', hold], ['corr', 'job'], only=set(), const={'slow': 'ok'}, timeout=600)
+    ctx.oblige(f'black box: a request held in flight for {hold} s across the stop completes; AwaitStop waits for it', not mism,
+               '' if not mism else str(mism[0][1:])[:300])
+    if mism:
+        i, line, code, model = mism[0]
+        replay = common.write_replay(ctx, 'slow', {'kind': 'slow', 'hold_s': hold, 'observed': code,
+                                                  'recipe': 'send headers + half the body of POST /prove; wait for in-flight gauge 1; RequestStop; hold; send the rest; expect a complete response before AwaitStop returns',
+                                                  'broken_tie': facts_err.detail[:500] if facts_err else None})
+        raise Violation(f'request in flight across the stop for {hold} s: {code[:300]}', replay)
+    if facts_err:
+        replay = common.write_replay(ctx, 'tie', {'kind': 'tie', 'tie': facts_err.tie, 'detail': facts_err.detail[:3000]})
+        raise Violation('T-facts broken: ' + facts_err.detail[:300], replay, found_input=False)
     if ctx.thorough:
         common.leanchecker(ctx, ['Smtb.Properties.C14'])
 
@@ -75,6 +98,11 @@ def run(ctx):
 def replay(ctx, data):
     common.go_build(['corrjob', 'c14stress', 'c14cli'])
     common.lake_build(['driver'])
+    if data.get('kind') == 'slow':
+        common.go_build(['c14slow'])
+        n, mism, _ = common.corr(ctx, 'replay', 'c14slow', ['-hold', data['hold_s']], ['corr', 'job'], only=set(), const={'slow': 'ok'}, timeout=600)
+        print('REPLAY:', 'reproduces ' + str(mism[0])[:500] if mism else 'no longer fails')
+        return 1 if mism else 0
     if data.get('kind') == 'stress':
         ok, out = stress(ctx, data['cycles'], data['procs'])
         print(out[-800:])
